@@ -257,6 +257,32 @@ func (c *c11Run) namespace(blk *c11Block, ns libshare.Namespace, rng *zv.Rand, m
 	}
 	c.g.Case(term, map[string]any{"spec": blk.spec, "namespace": ns.Bytes(), "mutate": mutate, "mutation": mutDesc, "rows": nrows, "shares": nshares, "padding": npad, "blobs": len(refs)}, key)
 	r.Count("ns_rows", strconv.Itoa(min(nrows, 8)))
+	// by the reference record: rows of the original square the namespace spans (the getter fans out over them)
+	refRows := c11RefRows(refs, blk.k)
+	bucket := func(n int) string {
+		switch {
+		case n <= 1:
+			return strconv.Itoa(n)
+		case n <= 8:
+			return "2-8"
+		case n < 16:
+			return "9-15"
+		case n <= 17:
+			return strconv.Itoa(n)
+		}
+		return ">17"
+	}
+	if mutate == "" {
+		r.Count("ns_rows_spanned", bucket(refRows))
+		if refRows > 16 {
+			r.Count("ns_feature", "namespace-rows>16")
+		}
+		for _, ref := range refs {
+			if (ref.start+ref.n-1)/blk.k-ref.start/blk.k+1 > 16 {
+				r.Count("ns_feature", "blob-rows>16")
+			}
+		}
+	}
 	r.Count("ns_padding_shares", strconv.Itoa(min(npad, 8)))
 	if multi {
 		r.Count("ns_feature", "blob-spans-rows")
@@ -387,6 +413,42 @@ func TestVerifC11(t *testing.T) {
 		return
 	}
 
+	// ---- namespaces spanning more than 16 rows of the original square (the share getter fans out over the rows of a
+	// namespace; seeded change C11-c: rows fetched in batches of 16 and stored at the position inside the batch). Needs a
+	// square at least 32 wide: real-builder blocks with one blob of 18..26 rows (share version 0 and 1), with several
+	// blobs of one namespace totalling more than 16 rows, and hand-placed squares whose namespaces span exactly 16 and
+	// exactly 17 rows. First, so that they sit in the first shard of the Coq case files.
+	nLong := r.N(1, 12)
+	for i := 0; i < nLong; i++ {
+		for v := 0; v < c11LongVariants; v++ {
+			if v == 3 && !r.Thorough() {
+				continue // 64-wide square: thorough tier only
+			}
+			// deterministic for the seed: the first attempt whose square really has a namespace of more than 16 rows
+			// (the builder may leave out a transaction that does not fit)
+			var blk *c11Block
+			for attempt := 0; attempt < 8 && blk == nil; attempt++ {
+				spec := c11GenLong(rng.Fork(uint64(i*64+v*8+attempt)+5<<32), v)
+				b, err := c11Build(spec)
+				if err != nil {
+					r.Violation("builder-failed", "the square builder rejected a generated block: "+err.Error(), c11Replay{Spec: spec})
+					break
+				}
+				if b.maxNsRows() > 16 {
+					blk = b
+				} else {
+					r.Count("long_rows_retry", strconv.Itoa(v))
+				}
+			}
+			if blk == nil {
+				t.Fatalf("harness broken: no block of variant %d with a namespace spanning more than 16 rows", v)
+			}
+			r.Count("kind", "long-"+blk.spec.Kind)
+			r.Count("square_size", strconv.Itoa(blk.k))
+			c.block(blk, rng, "")
+		}
+	}
+
 	nBuilt, nLayout, nMal := r.N(60, 1500), r.N(90, 2500), r.N(36, 1200)
 	for i := 0; i < nBuilt; i++ {
 		spec := c11GenBuilt(rng.Fork(uint64(i)))
@@ -435,6 +497,134 @@ func TestVerifC11(t *testing.T) {
 		r.Count("kind", "malformed")
 		c.block(blk, rng, c11Mutations[i%len(c11Mutations)])
 	}
+}
+
+const c11LongVariants = 5
+
+// maxNsRows: the largest number of square rows any one namespace of the block spans (by the reference record).
+func (b *c11Block) maxNsRows() int {
+	m := 0
+	for _, refs := range b.ref {
+		if n := c11RefRows(refs, b.k); n > m {
+			m = n
+		}
+	}
+	return m
+}
+
+// c11RefRows: rows of the original square from the first share of the first blob to the last share of the last blob.
+func c11RefRows(refs []c11Ref, k int) int {
+	if len(refs) == 0 {
+		return 0
+	}
+	last := refs[len(refs)-1]
+	return (last.start+last.n-1)/k - refs[0].start/k + 1
+}
+
+// c11SizeFor: a data size that takes exactly n shares.
+func c11SizeFor(rng *zv.Rand, n int, ver uint8) int {
+	first := libshare.FirstSparseShareContentSize
+	if ver == 1 {
+		first = libshare.FirstSparseShareContentSizeWithSigner
+	}
+	if n == 1 {
+		return 1 + rng.Intn(first)
+	}
+	return first + libshare.ContinuationSparseShareContentSize*(n-1) - rng.Intn(libshare.ContinuationSparseShareContentSize)
+}
+
+// c11GenLong: blocks in which a namespace spans more than 16 rows.
+//
+//	0: real builder, 32 wide: one blob of 18..26 rows, share version 0, plus small blobs of other namespaces
+//	1: real builder, 32 wide: the same with share version 1 (signer)
+//	2: real builder, 32 wide: one namespace with 4..7 blobs (one byte-identical pair) totalling 18..23 rows
+//	3: real builder, 64 wide: one blob of 18..40 rows (thorough tier)
+//	4: hand-placed, 32 wide: a namespace spanning exactly 16 rows (one blob, or two blobs around a padding run) followed by
+//	   one spanning exactly 17 rows
+func c11GenLong(rng *zv.Rand, variant int) c11BlockSpec {
+	if variant == 4 {
+		k := 32
+		spec := c11BlockSpec{Kind: "layout", MaxK: k, Threshold: 64, NsIDs: c11NsIDs(rng, 3)}
+		c0 := 1 + rng.Intn(k-1) // the 16-row namespace runs from (0, c0)
+		c1 := rng.Intn(k - 1)   // to (15, c1); the 17-row namespace from (15, c1+1)
+		c2 := rng.Intn(k)       // to (31, c2)
+		n16 := 15*k + c1 + 1 - c0
+		n17 := 31*k + c2 + 1 - (15*k + c1 + 1)
+		spec.Off = c0
+		blob := func(ns, n int) c11Item {
+			b := c11BlobSpec{Ns: ns, Seed: rng.U64(), Ver: uint8(rng.Intn(2))}
+			b.Signer = uint64(rng.Intn(3))
+			b.Size = c11SizeFor(rng, n, b.Ver)
+			return c11Item{Ns: ns, Blob: &b}
+		}
+		if rng.Bool() {
+			spec.Items = append(spec.Items, blob(1, n16))
+		} else {
+			a := 1 + rng.Intn(n16-40)
+			pad := 1 + rng.Intn(30)
+			spec.Items = append(spec.Items, blob(1, a), c11Item{Ns: 1, Pad: pad, PadV: uint8(rng.Intn(2))}, blob(1, n16-a-pad))
+		}
+		spec.Items = append(spec.Items, blob(2, n17))
+		return spec
+	}
+	k := 32
+	if variant == 3 {
+		k = 64
+	}
+	spec := c11BlockSpec{Kind: "built", MaxK: k, Threshold: zv.Pick(rng, []int{64, 64, 8}), NsIDs: c11NsIDs(rng, 2+rng.Intn(2))}
+	long := rng.Intn(len(spec.NsIDs))
+	// the long namespace first: it is appended while the builder is empty, so it always fits
+	switch variant {
+	case 2:
+		total := (18 + rng.Intn(5)) * k
+		nb := 4 + rng.Intn(4)
+		var blobs []c11BlobSpec
+		for i := 0; i < nb; i++ {
+			n := total - (nb-1)*(total/nb)
+			if i > 0 {
+				n = total/nb + rng.Intn(21)
+			}
+			b := c11BlobSpec{Ns: long, Seed: rng.U64(), Ver: uint8(rng.Intn(2)), Signer: uint64(rng.Intn(2))}
+			b.Size = c11SizeFor(rng, n, b.Ver)
+			if i == nb-1 {
+				b = blobs[rng.Intn(len(blobs))] // byte-identical to an earlier one
+			}
+			blobs = append(blobs, b)
+		}
+		for i := 0; i < len(blobs); {
+			t := c11TxSpec{Seed: rng.U64()}
+			for j, m := 0, 1+rng.Intn(3); j < m && i < len(blobs); j++ {
+				t.Blobs = append(t.Blobs, blobs[i])
+				i++
+			}
+			spec.Txs = append(spec.Txs, t)
+		}
+	default:
+		rows := 18 + rng.Intn(9)
+		if variant == 3 {
+			rows = 18 + rng.Intn(23)
+		}
+		b := c11BlobSpec{Ns: long, Seed: rng.U64()}
+		if variant == 1 {
+			b.Ver, b.Signer = 1, uint64(rng.Intn(3))
+		}
+		b.Size = c11SizeFor(rng, (rows-1)*k+1+rng.Intn(k), b.Ver)
+		spec.Txs = append(spec.Txs, c11TxSpec{Seed: rng.U64(), Blobs: []c11BlobSpec{b}})
+	}
+	// small company: blobs of the other namespaces (and sometimes of the long one), an ordinary transaction
+	for i, n := 0, 1+rng.Intn(3); i < n; i++ {
+		t := c11TxSpec{Seed: rng.U64()}
+		for j, m := 0, 1+rng.Intn(2); j < m; j++ {
+			b := c11BlobSpec{Ns: rng.Intn(len(spec.NsIDs)), Seed: rng.U64(), Ver: uint8(rng.Intn(2)), Signer: uint64(rng.Intn(3))}
+			b.Size = c11SizeFor(rng, 1+rng.Intn(6), b.Ver)
+			t.Blobs = append(t.Blobs, b)
+		}
+		spec.Txs = append(spec.Txs, t)
+	}
+	if rng.Bool() {
+		spec.Txs = append(spec.Txs, c11TxSpec{Plain: 1 + rng.Intn(900), Seed: rng.U64()})
+	}
+	return spec
 }
 
 // block queries every namespace that holds blobs and a few that do not.
